@@ -74,6 +74,8 @@ def encode(v):
             out = {"__obsfull__": {n: [encode(v.idl[n] if isinstance(v.idl[n], range) else list(v.idl[n])),
                                        [float(x) for x in (v.deltas[n] + v.r_values[n])]] for n in v.names},
                    "reweighted": bool(v.reweighted)}
+            out["value"] = float(v.value)
+            out["dvalue"] = float(v._dvalue)
             if hasattr(v, "e_dvalue") and getattr(v, "S", None):
                 # an analysed observable: the analysis is repeated with the same parameters when the input is decoded
                 out["analysed"] = {"S": float(list(v.S.values())[0]), "tau_exp": float(list(v.tau_exp.values())[0]),
@@ -111,6 +113,11 @@ def decode(v):
                                  "reweighted": v.get("reweighted")})
             if v.get("analysed"):
                 o.gamma_method(**v["analysed"])
+            # central value / error set directly on the object (inputs built from a solver model)
+            if "value" in v and abs(float(o.value) - v["value"]) > 1e-12 * max(1.0, abs(v["value"])):
+                o._value = v["value"]
+            if "dvalue" in v and abs(float(o._dvalue) - v["dvalue"]) > 1e-12 * max(1.0, abs(v["dvalue"])):
+                o._dvalue = v["dvalue"]
             return o
         if "__obs__" in v:
             from contracts.corr import native_obs
